@@ -247,7 +247,14 @@ COMMENTS = [
     ("unmatched-mode: keep logic-mode: OR", {"unmatched-mode": "keep", "logic-mode": "OR"}),
     ("prénom: José größe: 5 id: ü1", {"prénom": "José", "größe": "5", "id": "ü1"}), ("名前: テスト return-mode: no-matches", {"名前": "テスト", "return-mode": "no-matches"}),
 ]
+COMMENTS += [
+    # a value is everything up to the next coloned word, whatever character it starts with
+    ("ratio: .5 path: /tmp/x", {"ratio": ".5", "path": "/tmp/x"}), ('q: "quoted" note: (draft) v2', {"q": '"quoted"', "note": "(draft) v2"}),
+    ("sep: | id: a1", {"sep": "|", "id": "a1"}), ("delta: -1 id: +x", {"delta": "-1", "id": "+x"}),
+]
 COMMENTS_PARTIAL = [
+    # free text with adjacent colons is still free text: no exception, the named fields are kept
+    ("uses std::vector semantics id: v", {"id": "v"}), ("todo:: tighten", {}), ("title: : DRAFT", {}), ("addr is ::1 id: six", {"id": "six"}), ("a: : b: c", {"b": "c"}),
     # only the listed keys are checked (the stand-alone colon leaves an unnamed entry that the docs do not specify)
     ("note : DRAFT do not use author: Anatila", {"author": "Anatila"}),
     ("todo : later return-mode: no-matches", {"return-mode": "no-matches"}),
@@ -257,6 +264,11 @@ OUTER = [
     ("$f[*][yes()] ~ trailing ~", ("$f[*][yes()]", " trailing ")), ("~a~ $f[*][ ~inner~ yes() ]", ("$f[*][ ~inner~ yes() ]", "a")),
     ("~ has $ dollar ~ $f[*][no()]", ("$f[*][no()]", " has $ dollar ")), ("  ~x~\n$f[*][\n yes()\n]\n", ("$f[*][\n yes()\n]", "x")),
     ("~ return-mode: no-matches ~$f[1-3][#a]", ("$f[1-3][#a]", " return-mode: no-matches ")),
+]
+# comments above and below the csvpath are both outer comments: their fields do not run into each other (metadata end to end)
+ABOVE_BELOW = [
+    ("~id:x~$f[*][yes()]~name:y~", {"id": "x", "name": "y"}), ("~about~ $f[*][#a] ~id: second~", {"id": "second"}),
+    ("~ id: top ~\n$f[*][yes()]\n~ note: below ~", {"id": "top", "note": "below"}),
 ]
 
 
@@ -283,6 +295,15 @@ def r6(idx, rep):
         if len(ps) != 1 or ps[0].result != ("return", want):
             bad = bad or f"{c!r}: split into {ps[0].result}, documented {want!r} (text between ~ outside the brackets is comment, everything else is csvpath)"
     rep.check(bad is None, "R6", f"{fe.file}::MetadataParser.extract_csvpath_and_comment corpus", bad or f"{len(OUTER)} csvpaths", K.where(fe, fe.node))
+    bad = None
+    fx0 = idx.method("MetadataParser", "extract_metadata")
+    for c, want in ABOVE_BELOW:
+        it = Interp(idx, types={"self": "MetadataParser"}, inline={"MetadataParser.extract_csvpath_and_comment", "MetadataParser.collect_metadata"}, unknown_calls="residual")
+        ps = it.run_all(fx0, args={"instance": Obj("inst"), "csvpath": c}, store={"inst.metadata": {}})
+        got = ps[0].final_store.get("inst.metadata") if len(ps) == 1 else None
+        if len(ps) != 1 or ps[0].result[0] != "return" or not isinstance(got, dict) or any(got.get(k) != v for k, v in want.items()):
+            bad = bad or f"{c!r}: metadata {got!r}, documented {want!r} (a comment above and a comment below are two comments: the fields of one do not run into the other)"
+    rep.check(bad is None, "R6", f"{fe.file}::MetadataParser comments above and below", bad or f"{len(ABOVE_BELOW)} csvpaths", K.where(fe, fe.node))
     # extract_metadata: returns the csvpath part; collects from the comment part; keeps the original comment
     fx = idx.method("MetadataParser", "extract_metadata")
     rep.analysed(fx)
